@@ -74,4 +74,12 @@ def hideAllReturning (cf : Bytes) : List Bytes → List (List Bytes)
     else if !hasPrefix cf root then [] :: rest.map (fun _ => [])
     else [trimPrefix cf root] :: hideAllReturning cf rest
 
+/-- NOT the code: `hideCasketfile` with the containment test on "whole path segments"
+(`HasPrefix(casketfile, root + "/")`).  `filepath.Abs` leaves no trailing separator on any path but
+ONE, the top of the file system: for the root `/` the tested prefix is `//`, which no cleaned path
+has.  Used only by the witness theorem for a site whose root is `/`. -/
+def hideCasketfileSep (absRoot absCasketfile : Bytes) : List Bytes :=
+  if absCasketfile = [] then []
+  else if hasPrefix absCasketfile (absRoot ++ [slash]) then [trimPrefix absCasketfile absRoot] else []
+
 end Casket.FileServeSites
